@@ -551,6 +551,15 @@ class BiproportionalEvaluator:
         :param n_seats: Number of seats to be filled, either in total or by
             constituency.
         """
+        if not any(
+            n_votes
+            for district_votes in votes.values()
+            for n_votes in district_votes.values()
+        ):
+            # Seats can only go to cells with votes: nothing to apportion.
+            raise votelib.evaluate.core.VotingSystemError(
+                'no votes cast, cannot apportion seats biproportionally'
+            )
         # Initial result, proportional by parties only.
         # All subsequent modifications preserve this proportionality.
         result = self._initial_solution(votes, n_seats)
